@@ -65,7 +65,10 @@ int varintAdaptiveCheckSorted(const uint64_t *values, size_t count) {
     return 0;
 }
 
-/* Count unique values using simple sorting approach */
+/* Count unique values using simple sorting approach.
+ * The result equals 'count' only when every value was actually seen to be
+ * distinct: the BITMAP encoding (a set) is selected on that condition, so an
+ * out-of-memory fallback must not report it. */
 size_t varintAdaptiveCountUnique(const uint64_t *values, size_t count) {
     if (count == 0) {
         return 0;
@@ -84,12 +87,12 @@ size_t varintAdaptiveCountUnique(const uint64_t *values, size_t count) {
 
         size_t allocSize;
         if (size_mul_overflow(sampleSize, sizeof(uint64_t), &allocSize)) {
-            return count; /* Integer overflow, conservative estimate */
+            return count - 1; /* Unknown: never claim "all unique" on a guess */
         }
 
         uint64_t *sample = malloc(allocSize);
         if (!sample) {
-            return count; /* Conservative estimate */
+            return count - 1; /* Unknown: never claim "all unique" on a guess */
         }
 
         /* Collect samples */
@@ -127,12 +130,12 @@ size_t varintAdaptiveCountUnique(const uint64_t *values, size_t count) {
     /* For smaller arrays, do exact count with full sort */
     size_t allocSize;
     if (size_mul_overflow(count, sizeof(uint64_t), &allocSize)) {
-        return count; /* Integer overflow, conservative estimate */
+        return count - 1; /* Unknown: never claim "all unique" on a guess */
     }
 
     uint64_t *sorted = malloc(allocSize);
     if (!sorted) {
-        return count; /* Conservative estimate */
+        return count - 1; /* Unknown: never claim "all unique" on a guess */
     }
 
     memcpy(sorted, values, count * sizeof(uint64_t));
@@ -266,9 +269,10 @@ varintAdaptiveSelectEncoding(const varintAdaptiveDataStats *stats) {
      * Only use if all values are unique or nearly unique
      * AND data is already sorted (since BITMAP returns values in sorted order)
      */
-    if (stats->fitsInBitmapRange && stats->uniqueRatio > 0.9f &&
-        (stats->isSorted || stats->isReverseSorted)) {
-        /* All or nearly all values are unique - bitmap might work */
+    if (stats->fitsInBitmapRange && stats->isSorted &&
+        stats->uniqueCount == stats->count) {
+        /* Strictly ascending and duplicate free: exactly what a bitmap can
+         * reproduce (it returns its members once each, in ascending order) */
         if (stats->range > 0 && stats->count < 10000) {
             float density = (float)stats->count / (float)stats->range;
             if (density > 0.05f) {
